@@ -42,6 +42,28 @@ CLAIMED["C20"] = dict(engine="seqx", technique="bounded exhaustive input enumera
          "leading BOM; for arbitrary input NULL or output accepted by the inverse; no ASan report or trap, each attributed to the exact (bytes, fragmentation, pair).",
     design_ref="DESIGN.md §5 C20", note=SEQ)
 
+DS_TECH = "stateless model checking of the real library: exhaustive enumeration of all schedules with <=k deviations (preemptions, timeout-first choices) of small client programs under a serialising scheduler"
+def _ds(i, text, ref):
+    CLAIMED[i] = dict(engine="dsched", technique=DS_TECH, text=text, design_ref=ref, note=SC)
+_ds("C01", "Client programs (ping-pong, racing async/sync/barrier/group_async/async_and_wait over serial, concurrent, global and chained queues, gated items so that async must not wait, cold pool) are run on the real "
+    "library under every schedule within the bound; oracle: each item exactly once, every submission returns, no stuck witness (no enabled thread and no deadline, or virtual horizon passed), no library BUG log, no ASan report.", "DESIGN.md §4 C01")
+_ds("C02", "Mixes of async/sync/barrier/async_and_wait/apply on one serial queue from 2-3 threads under every schedule within the bound; oracle: item intervals pairwise disjoint and FIFO with respect to "
+    "call/return stamps and program order.", "DESIGN.md §4 C02")
+_ds("C03", "Hierarchies (depth 2-3, fan-in, concurrent inner queues, serial or workloop bottom, inactive queues retargeted twice before activation) with async and sync submissions at several levels; "
+    "oracle: all items sharing a serial queue/workloop in their target chains are pairwise disjoint; per-serial-queue FIFO.", "DESIGN.md §4 C03")
+_ds("C04", "Barrier/non-barrier sequences (async, sync, barrier_async, barrier_sync, DISPATCH_BLOCK_BARRIER blocks, apply) on a custom concurrent queue at default width and width 2; oracle: a barrier overlaps nothing, "
+    "items submitted before it finish first, items submitted after it start after it.", "DESIGN.md §4 C04")
+_ds("C05", "Every synchronous hand-off edge under contention; oracle: the call's return stamp follows its item's end stamp on every schedule (ordering content of the property; visibility is decided only "
+    "under sequential consistency, see level_note).", "DESIGN.md §4 C05")
+_ds("C06", "Suspend/resume/activate scripts and deep sequential nesting histories; oracle: no item starts while suspends-returned minus resumes-called is positive (one committed item allowed per cross-thread "
+    "suspend on a serial queue), nothing before activate, everything runs after the last resume (stuck witness otherwise).", "DESIGN.md §4 C06")
+_ds("C07", "Group programs; oracle: wait()=0 only if at some event of the call window every returned enter had a called leave; non-zero only after the full virtual timeout; each notify block once and only after "
+    "such a balanced moment since its registration; group empty and reusable at the end.", "DESIGN.md §4 C07")
+_ds("C08", "All small wait/signal programs; oracle: at every successful return successes <= value + signals started, non-zero only after the full virtual timeout, exactly value+signals-successes permits remain, "
+    "no forever-waiter left behind.", "DESIGN.md §4 C08")
+_ds("C15", "Merge programs on the three custom data source types and three target kinds; oracle: sum / union / membership+last-value conservation, no zero delivery, handler intervals disjoint, "
+    "sentinel eventually delivered (stuck witness otherwise).", "DESIGN.md §4 C15")
+
 NOT_YET = {}
 
 def main():
